@@ -21,7 +21,7 @@ func run(c *common.Ctx) error {
 	s := &common.Std{
 		Rule: "triples (a,b,c); all 9 ordered pairs are evaluated (eq, compare, compare &total, and < <= == on number pairs). " +
 			"Sources: every unordered pair of the atom list; every unordered triple of the limit numbers (2^53, 2^63, 2^64, ±0, NaN, ±Inf in all " +
-			"representations); random triples of numbers clustered around one precision limit in mixed representations; lists sharing prefixes; " +
+			"representations); lists also built as slices of longer lists (token l); random triples of numbers clustered around one precision limit in mixed representations; lists sharing prefixes; " +
 			"strings; twins; random structured values. non-trivial = not all three of one trivial kind; distinct by op line",
 		ExhaustiveNote: "all unordered pairs of atoms; all unordered triples of the limit numbers",
 		Gen:            gen,
@@ -125,6 +125,7 @@ func gen(c *common.Ctx, emit func(...string)) {
 			default:
 				l.Elems = append(l.Elems, t[j])
 			}
+			l.Sl = r.Intn(3) == 0
 			out[j] = l
 		}
 		emit3(emit, ranks, out[0], out[1], out[2])
